@@ -36,7 +36,11 @@ def run(tier, seed):
     ]
     res.assumptions = ["ModelExport.export_node / export_region_* (the big per-operation translation), link_name and the union-find are not under contract: bounded only",
                        "basic-block port counts (control ports) are outside _num_model_ports' contract (requires not DataflowBlock): bounded only"]
-    standard_flow(res, FILES, TARGETS, None, bounded_modules=[("bounded.c12", 300, 1800)])
+    # link names and order keys are computed from the graph store's listings (contracts shared with C04)
+    H = "hugr.hugr.base.Hugr."
+    listings = ([os.path.join(VERIF, "contracts", f) for f in ("node_port.py", "utils.py", "base.py")],
+                [H + "_linked_ports", H + "linked_ports", H + "outgoing_order_links", H + "incoming_order_links", H + "_node_links", H + "incoming_links", H + "outgoing_links"])
+    standard_flow(res, FILES, TARGETS, None, bounded_modules=[("bounded.c12", 300, 1800)], more=[listings])
     ground(res)
     res.level = "other"
     res.explanation = ("Proved from the real source: the number of ports listed for a node is the number of value ports of its signature (the instantiated one for Call; none / one for constant and "
